@@ -124,6 +124,8 @@ func main() {
 		runConfig(c, fs)
 	}
 	eskip(fs)
+	eoverlap()
+	res.Info["E-overlap"] = "two clients at the same time over endpoints [P, Q] (priority), per-request outcome in {ok, refused by P, delivery begun by P then reset}, all 9 pairs x 2 engines x 2 profiles; gates at every backend arrival and between the delivered part and the cut; every order of the blocks"
 	res.Info["E-skip"] = "olla engine, 3 endpoints: a five-request prefix opens A's breaker, A is readmitted, then every fault on B with C working - the request's history contains a skipped candidate"
 	res.Info["grid"] = map[string]any{"faults": names(fs), "engines": engines, "profiles": profiles, "balancers": balancers,
 		"response_types": []string{"json+content-length", "sse+chunked"}, "endpoints": "1..3", "configurations": len(cfgs)}
